@@ -1,5 +1,6 @@
 import Capella.Lemmas.GitTxn
 import Capella.Lemmas.GitPush
+import Capella.Lemmas.GitPrepared
 
 /-!
 # C16 — saving to a git repository creates exactly one faithful commit, or none
@@ -13,6 +14,11 @@ work tree (`head`, `index`, `files`); `fault` names the git command that fails, 
 `Valid s` says the handler is between transactions with a clean work tree (`git status` empty);
 `Restored s s'` says refs, HEAD, files and index content are as in `s` and no transaction is open.
 `writeOps ws` is a body that writes and closes the files `ws` (in order; later writes win).
+
+Transaction objects.  `handler.write_transaction(**o)` only *makes* an object (`create`: options, target ref);
+`with tx: body` *enters* it (`enterRun`: `__enter__` reads `rev-parse HEAD` **then**).  `Step`/`World`/`runSteps`
+are histories of such steps on one handler (`Model/GitPrepared.lean`); the section "Transaction objects made
+earlier, entered later" below says that every theorem of this file holds for them with `s` = the state at entry.
 
 Push.  `transactionPush fault rev o po body s rem` is the same `with` block with `push=po.push`, together
 with the refs `rem` of the remote `origin` (`Model/GitPush.lean`).  The remote accepts a push iff it does
@@ -188,6 +194,84 @@ theorem push_failure_refs_safe (fault : Option Nat) (rev : Str) (o : Opts) (po :
         r.1.1.refs = setRef s.refs (qualify (o.remoteBranch.getD rev)) s.commits.length)) :=
   transactionPush_refs_safe fault rev o po body s rem ho
 
+
+/-! ## Transaction objects made earlier, entered later -/
+
+/-- `with handler.write_transaction(**o): body` is: make the object, enter it at once. -/
+theorem with_is_create_then_enter (fault : Option Nat) (rev : Str) (o : Opts) (po : PushOpts)
+    (body : List (Op P)) (s : St P) (rem : Remote) :
+    transactionPush fault rev o po body s rem =
+      match create fault rev o po s with
+      | (s0, .error e) => ((s0, some e), rem)
+      | (s0, .ok tx) => enterRun fault rev tx body s0 rem :=
+  transactionPush_eq_create_enter fault rev o po body s rem
+
+/-- **When the object was made does not matter.**  A transaction object made at any earlier moment (in any state
+`s'` of the repository and the handler, e.g. before other saves moved the handler's HEAD), entered now in state `s`,
+behaves exactly like a transaction made now: the base revision is read by `__enter__`.  Hence every theorem of this
+file about `transaction` / `transactionPush` holds for prepared objects with `s` = the state at entry. -/
+theorem prepared_is_fresh (fault fault' : Option Nat) (rev : Str) (o : Opts) (po : PushOpts) (s' : St P) (tx : Txn)
+    (hc : (create fault' rev o po s').2 = .ok tx) (body : List (Op P)) (s : St P) (rem : Remote) :
+    enterRun fault rev tx body { s with calls := 0, trace := [] } rem = transactionPush fault rev o po body s rem :=
+  enterRun_of_created fault fault' rev o po s' tx hc body s rem
+
+/-- `commit_spec` for an object made earlier: exactly one commit, **its parent is the handler's HEAD right before
+THIS save** (not the HEAD of the time the object was made), tree = parent's tree with the written paths replaced,
+only the target ref moves, the handler is clean again, the remote is untouched (`push=False`). -/
+theorem prepared_commit_spec (fault' : Option Nat) (rev : Str) (o : Opts) (po : PushOpts) (s' : St P) (tx : Txn)
+    (hc : (create fault' rev o po s').2 = .ok tx) (hp : po.push = false)
+    (ws : List (P × Bytes)) (s : St P) (rem : Remote) (hv : Valid s) (hd : o.dry = false)
+    (hn : o.ignoreEmpty = false ∨ (applyWrites ws s.index).same (treeOf s s.head) = false) :
+    let r := enterRun none rev tx (writeOps ws) { s with calls := 0, trace := [] } rem
+    r.1.2 = none ∧
+    (∃ k, r.1.1.commits = s.commits ++ [k] ∧ k.parent = some s.head ∧
+      ∀ q, k.tree.get q = match lastWrite ws q with
+        | some c => some c
+        | none => (treeOf s s.head).get q) ∧
+    r.1.1.refs = setRef s.refs (qualify (o.remoteBranch.getD rev)) s.commits.length ∧
+    r.1.1.head = s.commits.length ∧ Valid r.1.1 ∧ r.2 = rem := by
+  intro r
+  have hr : r = (transaction none rev o (writeOps ws) s, rem) := by
+    simp only [r]
+    rw [enterRun_of_created none fault' rev o po s' tx hc, transactionPush_off none rev o po _ s rem hp]
+  have hobj := (create_ok fault' rev o po s' tx hc).1
+  obtain ⟨h1, h2, h3, h4, h5⟩ := commit_spec rev o ws s hv hobj hd hn
+  rw [hr]
+  exact ⟨h1, h2, h3, h4, h5, rfl⟩
+
+/-- `abort_restores` for an object made earlier: after an abort the work tree is in the state it had right before
+THIS transaction was entered. -/
+theorem prepared_abort_restores (fault' : Option Nat) (rev : Str) (o : Opts) (po : PushOpts) (s' : St P) (tx : Txn)
+    (hc : (create fault' rev o po s').2 = .ok tx) (hp : po.push = false)
+    (body : List (Op P)) (s : St P) (rem : Remote) (hv : Valid s) (e : Err)
+    (hb : (runBody none (objectLike rev) body (entered s)).2 = some e) :
+    let r := enterRun none rev tx body { s with calls := 0, trace := [] } rem
+    r.1.2 = some e ∧ Restored s r.1.1 ∧ r.1.1.commits = s.commits ∧ Valid r.1.1 ∧ r.2 = rem := by
+  intro r
+  have hr : r = (transaction none rev o body s, rem) := by
+    simp only [r]
+    rw [enterRun_of_created none fault' rev o po s' tx hc, transactionPush_off none rev o po _ s rem hp]
+  have hobj := (create_ok fault' rev o po s' tx hc).1
+  obtain ⟨h1, h2, h3, h4⟩ := abort_restores rev o body s hv hobj e hb
+  rw [hr]
+  exact ⟨h1, h2, h3, h4, rfl⟩
+
+/-- **The parent is the HEAD at entry, in every interleaving.**  Take any history of steps on one handler — making
+transaction objects, entering objects made long before, in any order, the same object several times, with any
+bodies, aborts, dry runs, pushes and failing git commands — and any step `st` of it.  The step adds no commit or
+exactly one; that commit's parent is the commit the handler's work tree was at right before this step; and the
+commit is still at its place at the end of the history (nothing a later step does takes it away).  No hypothesis
+on the state, the pool of objects or the options. -/
+theorem prepared_parent_is_head_at_entry (rev : Str) (pre post : List (Step P)) (st : Step P) (w : World P) :
+    let w1 := runSteps rev pre w
+    let w2 := (step rev st w1).1
+    let wf := runSteps rev (pre ++ st :: post) w
+    (w2.st.commits = w1.st.commits ∨
+      ∃ k, w2.st.commits = w1.st.commits ++ [k] ∧ k.parent = some w1.st.head ∧
+        wf.st.commits[w1.st.commits.length]? = some k) ∧
+    ∃ more, wf.st.commits = w2.st.commits ++ more :=
+  interleaving_parent rev pre post st w
+
 /-! ## The pinned code before the repairs did not have the property -/
 
 section witness
@@ -196,6 +280,11 @@ def w_s : St Nat :=
     head := 0, index := [(1, [10]), (2, [20])], files := Tree.get [(1, [10]), (2, [20])],
     txnOpen := false, calls := 0, trace := [] }
 def w_rev : Str := "refs/heads/master".toList
+/-- the object and the base revision a `createStale` returned (a refused creation: a dummy) -/
+def staleOf (r : St Nat × Except Err (Txn × Nat)) : Txn × Nat :=
+  match r.2 with
+  | .ok x => x
+  | .error _ => ({ o := {}, po := {}, target := [] }, 0)
 end witness
 
 /-- before `fix: roll back the git work tree …`: after a dry run the index keeps the written file, and
@@ -224,7 +313,48 @@ theorem pinned_refused_push_keeps_commit :
     r.1.2 = some .gitfail ∧ r.2 = [(w_rev, 7)] ∧ r.1.1.head = 0 ∧ getRef r.1.1.refs w_rev = some 1 := by
   decide
 
+
+/-- NOT the code — the variant that reads the base revision when the transaction object is made and keeps it: two
+prepared objects entered one after the other; the second commit's parent is the stale commit 0, `master` moves
+onto it and the first save's commit 1 falls off the branch. -/
+theorem stale_base_breaks_parent :
+    let ca := createStale (P := Nat) none w_rev {} {} w_s
+    let cb := createStale none w_rev {} {} ca.1
+    let r1 := enterRunStale none w_rev (staleOf ca).1 (staleOf ca).2 (writeOps [(1, [11])]) cb.1 []
+    let r2 := enterRunStale none w_rev (staleOf cb).1 (staleOf cb).2 (writeOps [(2, [21])]) r1.1.1 r1.2
+    ca.2.toOption.isSome = true ∧ cb.2.toOption.isSome = true ∧
+    r1.1.1.head = 1 ∧ r2.1.2 = none ∧ (r2.1.1.commits[2]?).map (·.parent) = some (some 0) ∧
+    getRef r2.1.1.refs w_rev = some 2 := by
+  decide
+
+/-- … and an aborted one puts the work tree back onto the stale commit instead of the one it was at -/
+theorem stale_base_breaks_abort :
+    let ca := createStale (P := Nat) none w_rev {} {} w_s
+    let cb := createStale none w_rev {} {} ca.1
+    let r1 := enterRunStale none w_rev (staleOf ca).1 (staleOf ca).2 (writeOps [(1, [11])]) cb.1 []
+    let r2 := enterRunStale none w_rev (staleOf cb).1 (staleOf cb).2 [Op.write 2 [21], Op.raise] r1.1.1 r1.2
+    r1.1.1.head = 1 ∧ r2.1.2 = some .abort ∧ r2.1.1.head = 0 := by
+  decide
+
 /-! ## Non-vacuity -/
+
+/-- the code on the same history (make A, make B, enter A, enter B, then B once more with an abort): B's commit sits
+on A's, `master` is at B's commit, the abort leaves HEAD there -/
+example :
+    let steps : List (Step Nat) := [.create {} {}, .create {} {}, .run 0 none (writeOps [(1, [11])]),
+      .run 1 none (writeOps [(2, [21])]), .run 1 none [Op.write 1 [12], Op.raise]]
+    let w := runSteps w_rev steps { st := w_s, rem := [], pool := [] }
+    w.st.commits.length = 3 ∧ (w.st.commits[1]?).map (·.parent) = some (some 0) ∧
+    (w.st.commits[2]?).map (·.parent) = some (some 1) ∧ getRef w.st.refs w_rev = some 2 ∧ w.st.head = 2 ∧
+    w.st.files 1 = some [11] := by
+  decide
+
+/-- the same object entered twice: the second commit sits on the first -/
+example :
+    let steps : List (Step Nat) := [.create {} {}, .run 0 none (writeOps [(1, [11])]), .run 0 none (writeOps [(1, [12])])]
+    let w := runSteps w_rev steps { st := w_s, rem := [], pool := [] }
+    (w.st.commits[2]?).map (·.parent) = some (some 1) ∧ w.st.head = 2 := by
+  decide
 
 /-- the repaired code on the same history: refused, remote untouched, `master` back at commit 0 -/
 example :
